@@ -522,6 +522,8 @@ def ref_repr(spec, q=False, anc=None):
     if t == "deep":
         raise RecursionError()
     if t == "nest":
+        if spec["n"] > 250:
+            raise Unsupported()   # near the recursion limit: whether it prints is decided by the pristine call
         return "[" * spec["n"] + ref_repr(spec["leaf"], q, []) + "]" * spec["n"]
     if t == "exotic":
         raise Unsupported()
@@ -632,9 +634,15 @@ def generate(rng, tier):
             continue
         if rng.random() < 0.04:
             # a value under many plain containers, well inside the recursion limit (depth thresholds, counters)
+            # (depths near the recursion limit are NOT generated: whether such a call fails depends on how deep the
+            # caller's own stack is, which differs between a pool worker and a fresh interpreter)
             ops.append({"value": {"t": "nest", "n": rng.choice([17, 32, 33, 64, 100, 127, 128, 129, 199, 200, 201, 250]),
                                   "leaf": rng.choice([{"t": "sym", "v": "a"}, {"t": "mlist", "items": [{"t": "sym", "v": "b"}, {"t": "int", "v": 1}]},
-                                                      {"t": "int", "v": 7}, {"t": "str", "v": "s"}])}})
+                                                      {"t": "int", "v": 7}, {"t": "str", "v": "s"},
+                                                      # a printer that raises at the bottom: the failure unwinds every level
+                                                      {"t": "box", "cls": 0, "kids": [], "plan": {"raise_at": 0}},
+                                                      {"t": "mexpr", "items": [{"t": "sym", "v": "f"}, {"t": "box", "cls": 1, "kids": [], "plan": {"raise_at": 0}}]}])}})
+            prev_failed_like = True
             continue
         if prev_failed_like and ops and rng.random() < 0.3 and ops[-1]["value"]["t"] != "deep":
             # same value again, no injected fault: lands right after a failure
